@@ -3,6 +3,11 @@ From QV Require Import Base Fields SrcFacts Msg SrcDecisions Sim Prober Hostname
 From Coq Require Import ZifyBool ZifyNat ZifyN.
 Local Open Scope Z_scope.
 
+(* the decision of onRegistrationTimeout regenerated from hostname.cpp (SrcDecisions), in the shape the proofs use *)
+Lemma host_announce_old {A} (a b : bytes) (x y : A) :
+  (if hostname_announce (Some a) (Some b) then x else y) = (if bytes_eqb a b then y else x).
+Proof. unfold hostname_announce, bs_eqb. cbn [bs_data]. destruct (bytes_eqb a b); reflexivity. Qed.
+
 (* ---- ties to hostname.cpp / mdns.cpp / message.cpp ---- *)
 Lemma hostname_question_spec q name : hostname_question q name = spec_question name q.
 Proof. reflexivity. Qed.
@@ -71,7 +76,7 @@ Proof.
   - rewrite Hr. destruct (m_response msg); cbn [negb snd]; [apply host_records_no_send|intros []].
   - destruct (tid =? T_REG)%N; cbn [snd].
     + intro H. apply in_app_iff in H as [H|[H|[]]]; [|discriminate].
-      destruct (bytes_eqb (h_name h) (h_prev h)); [destruct H|destruct H as [H|[]]; discriminate].
+      rewrite ?host_announce_old in *. destruct (bytes_eqb (h_name h) (h_prev h)); [destruct H|destruct H as [H|[]]; discriminate].
     + unfold on_rebroadcast, assert_hostname. cbn [snd]. intros [H|[H|[]]]; discriminate.
   - intros [].
 Qed.
